@@ -792,6 +792,37 @@ func (x *g) fieldOptions(c *desc.Case, cfg *desc.Config) {
 			cfg.PlanModifiers = append(cfg.PlanModifiers, desc.KVs{K: key(o), V: l})
 		}
 	}
+	// directed: a field of a message type that is reached through several paths gets options keyed by the full path
+	// of ONE of its occurrences (the other occurrences must stay as they are)
+	{
+		byType := map[string][]occurrence{}
+		var tkeys []string
+		for _, o := range occ {
+			if _, ok := byType[o.typeName]; !ok {
+				tkeys = append(tkeys, o.typeName)
+			}
+			byType[o.typeName] = append(byType[o.typeName], o)
+		}
+		n := 0
+		for _, k := range tkeys {
+			l := byType[k]
+			if len(l) < 2 || n >= 6 || excl[k] || !x.r.P(60) {
+				continue
+			}
+			o := l[x.r.Intn(len(l))]
+			switch n % 4 {
+			case 0:
+				cfg.NameOverrides = append(cfg.NameOverrides, desc.KV{K: o.path, V: x.attrName("_p")})
+			case 1:
+				cfg.ComputedFields = append(cfg.ComputedFields, o.path)
+			case 2:
+				cfg.Validators = append(cfg.Validators, desc.KVs{K: o.path, V: []string{validatorPool[1]}})
+			default:
+				cfg.SensitiveFields = append(cfg.SensitiveFields, o.path)
+			}
+			n++
+		}
+	}
 	// custom_types entries for plain string fields drawn by customField (no gogo option): by full path
 	var exclPaths []string
 	for _, o := range occ {
